@@ -208,7 +208,7 @@ theorem addQubit_gi {name : String} {a : Nat} {s s' : CState}
       by rw [hf, hkp]; exact gi.keptNF, ?_, by rw [hanc, hkp]; exact gi.ancOld⟩,
     ⟨by rw [hn]; exact Nat.le_succ _, hav, fun m h' => by rw [hmk]; exact h', fun x h' => by rw [hanc]; exact h',
       fun x h' => Or.inl (by rw [← hanc]; exact h'), htk, hkp, fun _ _ _ => by rw [hcur], ?_, ?_,
-      fun q h1 h2 => Or.inr (by rw [hn] at h2; omega)⟩,
+      fun q h1 h2 => Or.inr (by rw [hn] at h2; omega), fun q h' => by rw [hf] at h'; exact h'⟩,
     ha, hcur, ⟨hnava, gi.avail _ hava, ?_, ?_, ?_, ?_⟩, hava, by rw [hqm0, ha]; exact dictGet?_dictSet_self,
     ?_, ?_, hex, hmk, hqm⟩
   · intro g hg; rw [hL] at hg
@@ -269,7 +269,7 @@ theorem Fr.extendKn {Kn' : String → Prop} {D R C E : Nat → Prop} {s s' : CSt
     refine ⟨hx'.nav, hx'.av0, fun n hk hq => ?_, hx'.nc, hx'.unread, hx'.nm⟩
     by_cases hk' : Kn' n
     · exact hx'.nn n hk' hq
-    · exact h x hx n hk hk' hq, fr.pend, fr.alloc⟩
+    · exact h x hx n hk hk' hq, fr.pend, fr.alloc, fr.fkeep⟩
 
 /-! ### constants -/
 
